@@ -8,14 +8,15 @@
     fields - none for the offending one - have been emitted; exactly the bytes after that field remain.
     (Proofs/Sim6.v: warn-mode simulation + strict/warn agreement + "strict mode never warns".)
     The same is proved for COMMANDS and RESPONSES (Proofs/Sim7-10.v), for all tables passing [msg_tables_ok].
-    NOT YET PROVED: the composition for the stream root, and reserved command codes (an unknown command code makes
-    the input structurally inconsistent for the specification, so the theorems do not speak about it);
+    and for STREAMS of whole messages below the model's loop bound (Proofs/Sim13.v): [C04_every_root].
+    NOT YET PROVED: reserved command codes (an unknown command code makes the input structurally inconsistent for
+    the specification, so the theorems do not speak about it);
     decided by the oracle (implementation vs extracted [spec_value_error] at the pinned tables on every
     constrained leaf of generated messages) and the model correspondence.
     Statement file: theorem statements, [exact], Print Assumptions only. *)
 From Coq Require Import ZArith List String Bool.
 From TV Require Import Layout.Types gen.Tables gen.Pinned Base.Bytes Model.Monad Model.Ints Model.Decoder Model.Message Model.Pump
-  Model.Show Spec.Value Spec.Message Proofs.OpLemmas Proofs.Agree Proofs.Sim6 Proofs.Sim10 Properties.C20.
+  Model.Show Spec.Value Spec.Message Proofs.OpLemmas Proofs.Agree Proofs.Sim6 Proofs.Sim10 Proofs.Sim11 Proofs.Sim13 Properties.C20.
 Import ListNotations.
 Open Scope Z_scope.
 
@@ -75,15 +76,27 @@ Theorem C04_raises_iff_some_leaf_out_of_range_all_roots :
 Proof. exact root_raises_iff_bad_leaf. Qed.
 Print Assumptions C04_raises_iff_some_leaf_out_of_range_all_roots.
 
+(** EVERY root (streams below the loop bound of the model) *)
+Theorem C04_every_root :
+  forall T r bs evs o, msg_tables_ok T = true -> within_bound r bs ->
+    spec_value_error T r bs = Some (evs, o) -> decode T true r bs = (evs, o).
+Proof. exact any_root_first_bad. Qed.
+Print Assumptions C04_every_root.
+
+Theorem C04_every_root_pinned :
+  forall r bs evs o, within_bound r bs -> spec_value_error Pinned.T r bs = Some (evs, o) -> decode Tables.T true r bs = (evs, o).
+Proof. intros r bs evs o Hb. rewrite C20_pinned. apply any_root_first_bad; [vm_compute; reflexivity|exact Hb]. Qed.
+Print Assumptions C04_every_root_pinned.
+
 (** strict mode never emits a warning (every root, every state) *)
 Theorem C04_strict_never_warns :
   forall T r s tr s' o, dec_root T true r s = (tr, s', o) -> existsb Agree.is_warning tr = false.
 Proof. exact strict_is_quiet. Qed.
 Print Assumptions C04_strict_never_warns.
 
-(** the full statement (kept visible): the same for every root *)
+(** the full statement = [C04_every_root_pinned] *)
 Definition C04_full_statement : Prop :=
-  forall r bs evs o, spec_value_error Pinned.T r bs = Some (evs, o) -> decode Tables.T true r bs = (evs, o).
+  forall r bs evs o, within_bound r bs -> spec_value_error Pinned.T r bs = Some (evs, o) -> decode Tables.T true r bs = (evs, o).
 
 (** non-vacuity: a creation ticket whose tag is fine and whose hierarchy handle is out of range - the events of the
     structure and of the tag, then the error at the hierarchy, 2 bytes remaining *)
